@@ -126,6 +126,8 @@ ConnectorInputs ==
   \* (e) the default resolver, exercised for "localhost" only
   \cup {[Base EXCEPT !.svc = "connector", !.hostKind = "localhost", !.hostPort = hp, !.setPort = sp, !.resolver = "default"] :
      hp \in PortSlots, sp \in PortSlots}
+  \* (f) ... and for a name it cannot resolve (no-such-host.invalid): the failure is a Resolver error
+  \cup {[Base EXCEPT !.svc = "connector", !.hostKind = "nxdomain", !.hostPort = hp, !.resolver = "default"] : hp \in {"none", "pu"}}
 
 TlsInputs ==
   {[Base EXCEPT !.svc = "tls", !.lib = lb, !.name = n, !.trusted = t, !.hostPort = hp, !.via = "set_addr",
@@ -194,6 +196,11 @@ C19_Localhost(inp, o) ==
        IF p = "pu" THEN o.res = "ok" /\ o.peer \in {Lit4(p), Lit6(p)} /\ o.accepted = {o.peer}
        ELSE o.res = "err" /\ o.variant = "Io" /\ o.accepted = {}
 
+\* default resolver, a name that does not resolve: "failure: Resolver", nothing is dialled
+C19_DefaultFails(inp, o) ==
+  (inp.svc = "connector" /\ ~HasPreset(inp) /\ inp.resolver = "default" /\ inp.hostKind = "nxdomain") =>
+     o.res = "err" /\ o.variant = "Resolver" /\ o.accepted = {}
+
 C19_Tls(inp, o) ==
   inp.svc = "tls" =>
      \* the TCP stage went to the pre-set address of the TLS server and nowhere else
@@ -202,7 +209,7 @@ C19_Tls(inp, o) ==
         THEN o.res = "ok" /\ o.echo = "intact"
         ELSE o.res = "err"
 
-C19_Holds(inp, o) == C19_Resolution(inp, o) /\ C19_Fallback(inp, o) /\ C19_Localhost(inp, o) /\ C19_Tls(inp, o)
+C19_Holds(inp, o) == C19_Resolution(inp, o) /\ C19_Fallback(inp, o) /\ C19_Localhost(inp, o) /\ C19_DefaultFails(inp, o) /\ C19_Tls(inp, o)
 
 \* ---------------------------------------------------------------------------------------------------
 \* the machine
@@ -255,6 +262,8 @@ Resolve ==
                      ELSE out' = Err("NoRecords", "") /\ pc' = "done" /\ UNCHANGED <<addrs, dlist, resolved>>)
                [] inp.resolver = "err" ->
                     (out' = Err("Resolver", "") /\ pc' = "done" /\ UNCHANGED <<addrs, dlist, resolved>>)
+               [] inp.resolver = "default" /\ inp.hostKind = "nxdomain" ->
+                    (out' = Err("Resolver", "") /\ pc' = "done" /\ UNCHANGED <<addrs, dlist, resolved>>)
                [] inp.resolver = "default" ->
                     (\E l \in {<<Lit4(rport)>>, <<Lit6(rport), Lit4(rport)>>,
                                <<Lit4(rport), Lit6(rport)>>, <<Lit6(rport)>>} : Handed(l))
@@ -304,7 +313,7 @@ MachineObs ==
 Done == pc = "done"
 C19_ResolutionPrecedence == Done => C19_Resolution(inp, MachineObs)
 C19_OrderedFallback == Done => C19_Fallback(inp, MachineObs)
-C19_DefaultResolver == Done => C19_Localhost(inp, MachineObs)
+C19_DefaultResolver == Done => (C19_Localhost(inp, MachineObs) /\ C19_DefaultFails(inp, MachineObs))
 C19_TlsHostnameVerified == Done => C19_Tls(inp, MachineObs)
 \* no later address is contacted after a success; every address before the winner was contacted
 C19_ContactedIsPrefix ==
